@@ -119,8 +119,17 @@ def maxMacroDepth : Nat := 1000
 
 /-! ### iteration order (`Value.IterateOrder`) -/
 
+/-- the exact value of an integer of any kind (`lessIntegers` compares each in its own range) -/
+def intValue (v : Val) : Int :=
+  match v.resolved with
+  | .int i => i.toInt
+  | .uint u => u.toNat
+  | .stringer (.int i) _ => i.toInt
+  | .stringer (.uint u) _ => u.toNat
+  | _ => 0
+
 def valLess (a c : Val) : Bool :=
-  if a.isInteger && c.isInteger then a.toInt < c.toInt
+  if a.isInteger && c.isInteger then intValue a < intValue c
   else if a.isFloat && c.isFloat then a.toFloat < c.toFloat
   else decide (a.toS < c.toS)
 
@@ -701,9 +710,8 @@ def evalArrayItems : Nat → List Expr → XM (List V)
   | 0, _ => xerr "fuel" .diverge
   | _, [] => pure []
   | fuel+1, e :: es => do
-    let v ← (match e with
-      | .filtered .. => eval fuel e
-      | _ => xerr "unknown variable type is given")
+    -- an item is any expression the parser accepted
+    let v ← eval fuel e
     let vs ← evalArrayItems fuel es
     pure (v :: vs)
 
@@ -1003,12 +1011,17 @@ def execNode : Nat → Node → XM Unit
         if last != some out && !(last.isNone && out == []) then
           write out
           modify fun s => { s with changedC := (s.changedC.filter (·.1 != id)) ++ [(id, out)] }
+        else if last.isSome then
+          -- unchanged: the else branch, as with watched expressions
+          match elseB with
+          | some eb => execNodes fuel eb
+          | none => pure ()
         else pure ()
       else
         let now ← evalList fuel watch
         let st ← get
         let last := (st.changedV.lookup id).getD []
-        let changed := last.length == 0 || (last.zip now).any (fun (o, n) => !equalValueTo o.v n.v)
+        let changed := last.length == 0 || (last.zip now).any (fun (o, n) => !(o.v.isNil && n.v.isNil) && !equalValueTo o.v n.v)
         modify fun s => { s with changedV := (s.changedV.filter (·.1 != id)) ++ [(id, now)] }
         if changed then execNodes fuel thenB
         else match elseB with
@@ -1087,7 +1100,8 @@ def execNode : Nat → Node → XM Unit
       let cv ← eval fuel c
       let mv ← eval fuel m
       let wv ← eval fuel w
-      let value := floatToInt (Float.floor (cv.v.toFloat / mv.v.toFloat * wv.v.toFloat + 0.5))
+      -- (a maximum of zero gives 0, not the conversion of an infinity)
+      let value := if mv.v.toFloat == 0 then 0 else floatToInt (Float.floor (cv.v.toFloat / mv.v.toFloat * wv.v.toFloat + 0.5))
       if asName = [] then write (fmtInt value)
       else modifyCur fun f => { f with priv := f.priv.set asName (.int value) }
     | .tagWith pairs body => do
